@@ -27,6 +27,13 @@ impl<T: Send> Probe<T> {
 impl<T: Sync> Probe<T> {
     pub const IS_SYNC: bool = true;
 }
+pub trait ProbeCopyFallback {
+    const IS_COPY: bool = false;
+}
+impl<T> ProbeCopyFallback for Probe<T> {}
+impl<T: Copy> Probe<T> {
+    pub const IS_COPY: bool = true;
+}
 
 type JitClosure = Box<dyn Fn() -> u64 + Send + Sync>;
 
@@ -200,6 +207,27 @@ fn gen_plan(p: &mut Prng, same_as: Option<&Plan>) -> Plan {
     // neighbours of the same type with equal seeds are the interesting case
     // for a mis-keyed shared cache
     if let Some(o) = same_as {
+        // a neighbour of the same type whose seed differs by a pattern that cancels in
+        // sums / xors / Fletcher-type checksums (a cache keyed on such a digest collides)
+        if o.type_idx < N_TYPES && o.seed.len() >= 8 && p.chance(1, 4) {
+            let mut q = o.clone();
+            q.ctor = 0;
+            let words = q.seed.len() / 4;
+            let sh = p.below(31);
+            let d = 1 + p.below(1 << sh) as u32;
+            let i = p.below(words as u64) as usize;
+            let pattern: &[i64] = match p.below(4) { 0 => &[1, -1], 1 => &[1, -2, 1], 2 => &[1, -3, 3, -1], _ => &[1, 0, -1] };
+            for (k, c) in pattern.iter().enumerate() {
+                let j = (i + k) % words;
+                let v = u32::from_le_bytes([q.seed[4 * j], q.seed[4 * j + 1], q.seed[4 * j + 2], q.seed[4 * j + 3]]);
+                q.seed[4 * j..4 * j + 4].copy_from_slice(&v.wrapping_add((*c * d as i64) as u32).to_le_bytes());
+            }
+            let mut o2 = o.clone();
+            o2.ctor = 0;
+            let _ = o2;
+            q.ops = gen_ops(p, q.type_idx, q.rounds.is_none());
+            return q;
+        }
         if p.chance(1, 3) {
             let mut q = o.clone();
             if p.chance(1, 2) {
